@@ -561,3 +561,67 @@ func VP_C07_SolidCollider() {
 	}
 	vp.Reach("end")
 }
+
+// VP_C07_TriTri: Triangle.TriangleCollisions reports a segment whenever the
+// two triangles share a point. One triangle is fixed, the other is a fixed
+// shape translated by a symbolic offset (so all plane normals stay concrete
+// and the arithmetic linear); the shared point is a symbolic witness
+// (barycentric in both triangles, strictly inside both so that touching
+// configurations, which the doc leaves open, are excluded). Shapes from the
+// parameter, including ones where the intersection line is parallel to an
+// edge of either triangle.
+func VP_C07_TriTri() {
+	off := vpPoint("off")
+	var a, b *Triangle
+	switch vp.Param("shape") {
+	case 0: // intersection line parallel to a's edge [1]->[2]
+		a = &Triangle{XYZ(0, 0, 0), XYZ(2, 0, 0), XYZ(2, 2, 0)}
+		b = &Triangle{XYZ(1, -1, -1), XYZ(1, 3, -1), XYZ(1, 1, 2)}
+	case 1: // ... parallel to b's edge [1]->[2]
+		a = &Triangle{XYZ(1, -1, -1), XYZ(1, 3, -1), XYZ(1, 1, 2)}
+		b = &Triangle{XYZ(0, 0, 0), XYZ(2, 0, 0), XYZ(2, 2, 0)}
+	case 2: // general position
+		a = &Triangle{XYZ(0, 0, 0), XYZ(2, 0.5, 0.25), XYZ(0.5, 2, -0.25)}
+		b = &Triangle{XYZ(1, 0.5, -1), XYZ(0.5, 1.5, 1), XYZ(1.5, 1, 1.5)}
+	}
+	b0 := b
+	b = &Triangle{b[0].Add(off), b[1].Add(off), b[2].Add(off)}
+	u, v, s, t := vp.Float64("u"), vp.Float64("v"), vp.Float64("s"), vp.Float64("t")
+	// well inside both triangles: segments shorter than 1e-8 of an edge are deliberately not reported
+	vp.Assume(vp.All(u > 0.01, v > 0.01, u+v < 0.99, s > 0.01, t > 0.01, s+t < 0.99))
+	pa := a[0].Add(a[1].Sub(a[0]).Scale(u)).Add(a[2].Sub(a[0]).Scale(v))
+	pb := b[0].Add(b[1].Sub(b[0]).Scale(s)).Add(b[2].Sub(b[0]).Scale(t))
+	if vp.Param("sound") != 1 {
+		vp.AssumeEq(pa.X, pb.X)
+		vp.AssumeEq(pa.Y, pb.Y)
+		vp.AssumeEq(pa.Z, pb.Z)
+	} else {
+		// any offset within reach: only the soundness of what is reported is checked
+		vp.Assume(vp.All(off.X > -4, off.X < 4, off.Y > -4, off.Y < 4, off.Z > -4, off.Z < 4))
+	}
+	segs := a.TriangleCollisions(b)
+	if vp.Param("sound") != 1 {
+		vp.Assert(len(segs) > 0, "triangles that share an interior point are reported as colliding")
+	}
+	// soundness: reported segment ends lie in both (closed) triangles
+	inTri := func(t0, e1, e2, q Coord3D) bool {
+		// e1, e2 are the triangle's (concrete) edge vectors from t0
+		w := q.Sub(t0)
+		d00, d01, d11 := e1.Dot(e1), e1.Dot(e2), e2.Dot(e2)
+		d20, d21 := w.Dot(e1), w.Dot(e2)
+		den := d00*d11 - d01*d01
+		bu, bv := (d11*d20-d01*d21)/den, (d00*d21-d01*d20)/den
+		n := e1.Cross(e2)
+		off := w.Dot(n)
+		return vp.All(bu >= -1e-9, bv >= -1e-9, bu+bv <= 1+1e-9, off <= 1e-9, off >= -1e-9)
+	}
+	ea1, ea2 := a[1].Sub(a[0]), a[2].Sub(a[0])
+	eb1, eb2 := b0[1].Sub(b0[0]), b0[2].Sub(b0[0])
+	for _, sg := range segs {
+		for _, q := range sg {
+			vp.Assert(inTri(a[0], ea1, ea2, q), "a reported segment end lies in the first triangle")
+			vp.Assert(inTri(b[0], eb1, eb2, q), "a reported segment end lies in the second triangle")
+		}
+	}
+	vp.Reach("end")
+}
